@@ -127,11 +127,6 @@ Proof. constructor; cbn; intros; try congruence; try lia; auto. Qed.
 
 (* ---------- preservation, one lemma per kind of op ---------- *)
 
-Ltac bool_cases :=
-  repeat match goal with
-         | b : bool |- _ => destruct b
-         end.
-
 Lemma inv_spawn g : Inv g -> Inv (exec SpawnClose g).
 Proof.
   intros [H1 H2 H3 H4 H5 H6 H7 H8 H9 H10 H11 H12].
